@@ -1,6 +1,7 @@
 """C20 results depend only on input and options: no call-history, no thread effects - E5 schedules + E6 histories."""
 import collections
 import gc
+import inspect
 import io
 import itertools
 import json
@@ -205,6 +206,48 @@ def _ops():
         list(l3.get_tokens('select foo, map from bar where x like 1 limit 2; create table t (c int)'))
         held.extend([l2, l3, l4, l5])
 
+    def edit_returned_trees():
+        # what parse() / parsestream() returned belongs to the caller: edit it, run filters on it
+        from sqlparse import filters
+        for text in (PROBE, PROBE + ';select 3', 'select a, b from t where x = 1 and y in (select 1) -- c\n; insert into t values (1)'):
+            for st in list(sqlparse.parse(text)) + list(sqlparse.parsestream(text)):
+                for leaf in list(st.flatten())[:4]:
+                    leaf.value = 'ZZ'
+                filters.StripWhitespaceFilter().process(st)
+                filters.ReindentFilter().process(st)
+                del st.tokens[2:]
+                held.append(st)
+
+    def clear_and_reset():
+        # back to the defaults without the reconfiguration steps in between, on the singleton and on an own object
+        for lx in (lexer.Lexer.get_default_instance(), lexer.Lexer()):
+            lx.set_SQL_REGEX(keywords.SQL_REGEX[:5])
+            lx.default_initialization()
+            list(lx.get_tokens('select foo'))
+            lx.add_keywords({'FOO': T.Keyword})
+            lx.default_initialization()
+            list(lx.get_tokens('select foo'))
+            lx.clear()
+            lx.default_initialization()
+
+    def format_overflows_inside_filter():
+        # calls that run out of stack at every depth of the pipeline, among them inside each layout filter
+        nested = 'select a from (' * 6 + 'select b, c from t join u on x = y where p = 1 or q = 2' + ') s' * 6
+        base = len(inspect.stack())
+        old = sys.getrecursionlimit()
+        for opts in (dict(reindent_aligned=True), dict(reindent=True, comma_first=True)):
+            # (measured: with this input parse() needs < 28 frames of head-room, the two filters up to 56-60)
+            for room in range(26, 62, 4):
+                try:
+                    sys.setrecursionlimit(base + room)
+                    sqlparse.format(nested, **opts)
+                except sqlparse.exceptions.SQLParseError:
+                    pass
+                except RecursionError:
+                    pass        # C15's subject; here only what the call leaves behind matters
+                finally:
+                    sys.setrecursionlimit(old)
+
     def cli_main():
         from sqlparse import cli
         old_out, old_in = sys.stdout, sys.stdin
@@ -227,6 +270,8 @@ def _ops():
         ('format-operators-ws', format_operators_ws), ('format-strip-comments-ws', format_strip_comments_ws),
         ('stream-abandoned', stream_abandoned),
         ('stream-suspended', stream_suspended), ('probe-texts-abandoned', probe_texts_abandoned), ('reconfigure-and-reset', reconfigure_and_reset), ('second-lexer', second_lexer),
+        ('edit-returned-trees', edit_returned_trees), ('clear-and-reset', clear_and_reset),
+        ('format-overflows-inside-filter', format_overflows_inside_filter),
         ('cli-main', cli_main), ('many-statements', many_statements)])
 
 
@@ -291,7 +336,7 @@ def histories_part(tier, seed, ref):
         if h:
             transitions.add((dig_of.get(h[:-1]), h[-1], r['digest']))
     extra = 0
-    cap = 1500 if tier == 'quick' else 20000
+    cap = 360 if tier == 'quick' else 20000
     capped = False
     while frontier and not capped:
         nxt = []
@@ -344,7 +389,7 @@ def lazy_part(tier):
         refs = [gensched.alone(f, n) for _, f, n in m]
         out = []
         for combo in chunk:
-            st = gensched.explore([m[i][1] for i in combo], [m[i][2] for i in combo], [refs[i] for i in combo])
+            st = gensched.explore_checked([m[i][1] for i in combo], [m[i][2] for i in combo], [refs[i] for i in combo])
             out.append((combo, st))
         return out
     res = [x for ch in core.pmap(work, core.chunked(combos, core.NPROC * 4)) for x in ch]
@@ -667,7 +712,7 @@ def run(tier, seed):
         'histories': hinfo, 'init_race': race, 'concurrent_calls': cc, 'lazy_streams': linfo, 'frame_condition': fc,
         'schedules_explored': total_exec, 'timing_s': timing,
         'exhaustive': not any(s['capped'] for s in race.values()) and not hinfo['fixpoint_capped'],
-        'explanation': 'E6: every history of <= d operations from an 18-operation alphabet (each in a forked child of a warm '
+        'explanation': 'E6: every history of <= d operations from a 21-operation alphabet (each in a forked child of a warm '
                        'parent), plus BFS over the digest-quotient graph of global states to fixpoint; in every state the '
                        'probe suite must return exactly what a fresh interpreter returns. E5: all interleavings of 2-3 real '
                        'threads through lexer creation/initialisation under a cooperative scheduler (scheduling points at '
